@@ -183,6 +183,10 @@ def functionCallScope (k : Resolver) (st : St) (call : Expr) (inherited : Chain)
     | _ => (.ok none, st)
   | _ => (.ok none, st)
 
+/-- The order in which `scopesForOwner` (below) builds the chain; the translator re-reads the same
+    order from `scopes_for_owner` in the source (`C10.tie_chain_order`). -/
+def chainOrder : List String := ["inherited", "own", "rec", "with", "call"]
+
 /-- `scopes_for_owner(owner)` -/
 def scopesForOwner (k : Resolver) (st : St) (owner : Expr) : Except Fail Chain × St :=
   let inherited : Chain := (st.get (nodeId owner)).getD []
